@@ -299,3 +299,27 @@ Definition merge_safe (m : merge) : bool :=
 
 Definition n_labels (names : option (list label)) : nat :=
   match names with None => 0 | Some l => length l end.
+
+(** * Counting elements directly on the string *)
+
+(** Number of positions of [s] at which [p] starts. *)
+Fixpoint count_starts (p s : string) : nat :=
+  match s with
+  | EmptyString => 0
+  | String c r => (if starts p s then 1 else 0) + count_starts p r
+  end.
+
+(** The start of a text element, of a circle, of an edge path / dendrogram line, of a pie-chart
+    wedge (the arrow-head path inside the marker definition has M0 after the d attribute opens and is
+    none of these). *)
+Definition P_text : string := "<text".
+Definition P_circle : string := "<circle".
+Definition P_edge : string := "<path stroke-width=".
+Definition P_wedge : string := "<path d=""M ".
+
+(** Nodes drawn as one circle, and the total number of wedges of the others. *)
+Definition is_circle_node (nd : node) : bool :=
+  match n_shape nd with Disk _ => true | Pie zero_sum _ => zero_sum end.
+
+Definition n_wedges (nd : node) : nat :=
+  match n_shape nd with Disk _ => 0 | Pie true _ => 0 | Pie false ws => length ws end.
